@@ -88,6 +88,29 @@ func c11ChanRoundTrip(rec *sim.Rec, num uint16, payload []byte) {
 		if err == nil && (uint16(dec.Number) != num || !bytes.Equal(dec.Data, payload) || dec.Length != len(payload)) {
 			rec.Violate("chandata-roundtrip", fmt.Sprintf("len%%4=%d", len(payload)%4), "round trip of (num=0x%04x,len=%d) gave (num=0x%04x,len=%d,Length=%d)", num, len(payload), uint16(dec.Number), len(dec.Data), dec.Length)
 		}
+		if err != nil {
+			return
+		}
+		// the decoded value is encoded again as it stands (Data is a sub-slice of Raw, Length is
+		// set): a relay that forwards what it has decoded does exactly this
+		dec.Encode()
+		if !bytes.Equal(dec.Raw, want) {
+			rec.Violate("chandata-encode", fmt.Sprintf("re-encode-decoded/len%%4=%d", len(payload)%4), "Decode then Encode of the same value (num=0x%04x,len=%d) = %d bytes %x..%x, reference %d bytes %x..%x", num, len(payload), len(dec.Raw), head(dec.Raw), tail(dec.Raw), len(want), head(want), tail(want))
+
+			return
+		}
+		// ... and then used for another message without Reset: Length is a leftover of the decode
+		// ("ignored while encoding, len(Data) is used")
+		for _, next := range [][]byte{nil, payload[:len(payload)/2], {0xAA}} {
+			dec.Data = next
+			dec.Encode()
+			if w2 := wire.EncodeChannelData(num, next, true); !bytes.Equal(dec.Raw, w2) {
+				rec.Violate("chandata-encode", fmt.Sprintf("stale-length/next-len=%d", min(len(next), 2)), "value decoded from a %d-byte payload, then Data set to %d bytes and encoded: %d bytes %x..%x, reference %d bytes %x..%x", len(payload), len(next), len(dec.Raw), head(dec.Raw), tail(dec.Raw), len(w2), head(w2), tail(w2))
+
+				return
+			}
+		}
+		rec.Ev("chandata-struct-reuse-checks")
 	})
 }
 
